@@ -79,7 +79,7 @@ ensures r == (*self == *other || (*self is BitArray && *other is BitArray) || (*
 ensures *self == *other ==> r,''')),
     ])
     f.fn('equal_up_to_constness', ret='r', props=['C20', 'C08'],
-         rewrites=[('D1', D1_GUARD_OLD, D1_GUARD_NEW)],
+         d1=True,
          spec='ensures r == eq_upto_const(*ty1, *ty2),')
     f.fn('equal_base_type', ret='r', props=['C20', 'C08'], spec='''
 ensures
